@@ -40,8 +40,11 @@ DAGS = {
     "argmax-chain": dict(terms=[["argmax1", ["sub", A, Z]]]),
     "cumsum": dict(terms=[["cumsum0", ["neg", Z]]]),
     "matmul": dict(terms=[["matmulT", ["neg", A], B]]),
+    # an op that takes the same array twice (parallel edges in the plan multigraph) plus an input with a longer producer chain
+    "repeated-arg": dict(terms=[["fma3", ["neg", A], ["neg", A], ["neg", ["T", ["T", ["mapblk", A]]]]]]),
+    "repeated-arg-late": dict(terms=[["fma3", ["neg", ["T", ["T", ["mapblk", A]]]], ["neg", A], ["neg", A]]]),
 }
-QUICK_DAGS = ["branches", "diamond", "chain-4-1-4", "multi-output", "rechunk-2stage", "store-target"]
+QUICK_DAGS = ["branches", "diamond", "chain-4-1-4", "multi-output", "rechunk-2stage", "store-target", "repeated-arg"]
 
 
 def configs(tier):
@@ -94,7 +97,8 @@ def run_once(cfg, chooser, seed=0, executor=None, fp=False):
         except HarnessError:
             raise
         except Exception as e:
-            err = f"{type(e).__name__}: {str(e)[:200]}"
+            import re as _re
+            err = _re.sub(r"\b(array|op)-\d+", r"\1-N", f"{type(e).__name__}: {str(e)[:200]}")
         probs = []
         if err is not None:
             probs.append(("execution-error", err))
